@@ -342,12 +342,29 @@ def w4(model: Model, rep: Report):
     s, idx = sym(h.self_name), sym(h.param_names[1])
     lmap = ("attr", s, "channel_label_map")
     has = ("in", idx, lmap)
+    def by_case(t: Term, labelled: bool) -> Term:
+        """``label_map.get(row, default)`` read per case: the entry when the row is labelled, the default otherwise; nested f-strings flattened"""
+        if not isinstance(t, tuple) or not t:
+            return t
+        t = tuple(by_case(x, labelled) if isinstance(x, tuple) else x for x in t)
+        if t[0] == "var" and len(t) == 4 and t[3][0] not in ("list", "dict", "comp"):
+            return t[3]
+        if is_call_of(t, "get") and t[1][1] == lmap and len(list(t[2]) + list(t[3])) == 2 and (list(t[2]) + [x for _, x in t[3]])[0] == idx:
+            return ("sub", lmap, idx) if labelled else (list(t[2]) + [x for _, x in t[3]])[1]
+        if t[0] == "fstr":
+            parts = []
+            for x in t[1]:
+                parts.extend(x[1] if isinstance(x, tuple) and x and x[0] == "fstr" else [x])
+            return ("fstr", tuple(parts))
+        return t
+
     for case, mp in (("labelled", {has: TRUE}), ("unlabelled", {has: FALSE})):
         hit = [p for p in ps if p.exit == "return" and subst(p.cond, mp) == TRUE]
         ok = len(hit) == 1
         if ok:
             d = dict(hit[0].value[2])
             nm = d.get("channel_name")
+            nm = by_case(nm, case == "labelled") if nm is not None else None
             if case == "labelled":
                 ok = nm == ("fstr", (("sub", lmap, idx),))
             else:
